@@ -12,7 +12,7 @@ import itertools
 from pyvc.oblig import obligation
 from pyvc.sym import And, Or, Not, Implies, Iff, SInt, SBool
 
-from spyne.model.complex import ComplexModel, ComplexModelBase, Array, Mandatory, Iterable
+from spyne.model.complex import ComplexModel, ComplexModelBase, Array, Mandatory, Iterable, SelfReference
 from spyne.model.primitive import Integer, Integer32, Unicode, Decimal, Date, Boolean, AnyUri
 from spyne.model.binary import ByteArray
 from spyne.model._base import ModelBase
@@ -109,11 +109,17 @@ def make_pool():
     # a type that already carries database column options (they live in one dict per type)
     Name = Unicode(64, server_default='n/a')
     NameIdx = Name(index=True)
-    return dict(Int10=Int10, Str5=Str5, Base=Base, Derived=Derived, Arr=Arr, ArrInt=ArrInt, V1=V1, V2=V2,
+    Pat = Unicode(pattern='[a-z]+')             # a pattern-restricted text type (derivations may drop the pattern)
+
+    class Node(ComplexModel):                   # a recursive model: the placeholder SelfReference stands for the class
+        __namespace__ = TNS
+        v = Integer
+        child = SelfReference
+    return dict(Pat=Pat, Node=Node, Int10=Int10, Str5=Str5, Base=Base, Derived=Derived, Arr=Arr, ArrInt=ArrInt, V1=V1, V2=V2,
                 Pending=Pending, Pending2=Pending2, Holder=Holder, Integer=Integer, Unicode=Unicode, Name=Name, NameIdx=NameIdx)
 
 
-PROBES = [None, -1, 0, 5, 10, 11, 10 ** 12, '', 'abc', 'abcdef']
+PROBES = [None, -1, 0, 5, 10, 11, 10 ** 12, '', 'abc', 'abcdef', 'ABC']
 SKIP_ATTRS = {'_variants', 'parent_variant', '_delayed_child_attrs', '_subclasses'}   # registries (whitelisted frame)
 
 
@@ -163,7 +169,29 @@ OPS = ['prim_call', 'simple_customize', 'complex_customize', 'child_attrs', 'chi
        'array_wrap', 'mandatory_array', 'mandatory_complex', 'mandatory_simple', 'subclass', 'append_field',
        'insert_field', 'append_pending_field', 'append_to_derived_parent', 'variant_child_attrs_future',
        'insert_pending_field', 'array_wrap_variant', 'array_wrap_simple_variant', 'iterable_wrap_variant',
-       'array_wrap_with_item_attrs', 'column_option_pk', 'column_option_server_default']
+       'array_wrap_with_item_attrs', 'column_option_pk', 'column_option_server_default',
+       # operations whose argument objects (dicts of per-field attributes) are shared by every use in a history, the way a
+       # module-level constant is, and derivations with a result contract of their own
+       'child_attrs_noexc_shared_args', 'child_attrs_noexc_shared_args_on_derived', 'child_attrs_shared_args',
+       'mandatory_with_kwargs', 'mandatory_unicode', 'mandatory_integer',
+       'pattern_removed', 'pattern_removed_then_derived', 'declare_recursive_customized', 'declare_recursive_plain']
+
+
+def _attrs(m):
+    return snapshot(m)['attrs']
+
+
+def _mandatory_result(src_attrs, new, extra):
+    """Mandatory(src, **extra) carries exactly: min_occurs=1, not nillable, the extra keywords (and min_len >= 1 for text);
+    everything else as in src."""
+    want = dict(src_attrs)
+    want.update(min_occurs=1, nillable=False, _nullable=False)
+    want.update(extra)
+    got = _attrs(new)
+    # re-created per class by design (None -> empty containers), derived from other attributes, or naming
+    skip = ('type_name', '_explicit_type_name', 'sqla_column_args', 'translations', 'max_str_len', 'nullable')
+    bad = [(k, got.get(k), want[k]) for k in want if k not in skip and got.get(k) != want[k]]
+    return bad
 
 
 def apply_op(c, op, pool, step):
@@ -171,7 +199,73 @@ def apply_op(c, op, pool, step):
     P = pool
     exp = {'changed': {}, 'new': None}     # changed: model name -> function(before_snapshot, after_snapshot) -> ok
     tag = 's%d' % step
-    if op == 'prim_call':
+    SH = P.setdefault('_shared_args', {'noexc': {'a': dict(ge=1)}, 'ca': {'a': dict(ge=1), 'b': dict(min_len=1)}})
+    if op in ('child_attrs_noexc_shared_args', 'child_attrs_noexc_shared_args_on_derived'):
+        src = P['Base'] if op == 'child_attrs_noexc_shared_args' else P['Derived']
+        out = c.run(src.customize, child_attrs_noexc=SH['noexc'])
+
+        def result(new, src=src):
+            ti = new.get_flat_type_info(new) if src is P['Derived'] else new._type_info
+            bad = []
+            for k, t in new._type_info.items():
+                if k == 'a':
+                    if t.Attributes.ge != 1 or t.Attributes.exc:
+                        bad.append((k, t.Attributes.ge, t.Attributes.exc))
+                elif not t.Attributes.exc:
+                    bad.append((k, 'not excluded'))
+            if 'a' not in ti:
+                bad.append('a missing')
+            return bad
+        exp['result'] = result
+    elif op == 'child_attrs_shared_args':
+        out = c.run(P['Base'].customize, child_attrs=SH['ca'])
+        exp['result'] = lambda new: [x for x in [('a', new._type_info['a'].Attributes.ge), ('b', new._type_info['b'].Attributes.min_len)]
+                                     if x[1] != 1] + [(k, 'excluded') for k, t in new._type_info.items() if t.Attributes.exc]
+    elif op == 'mandatory_with_kwargs':
+        src_attrs = _attrs(P['Int10'])
+        out = c.run(Mandatory, P['Int10'], max_occurs=5)
+        exp['result'] = lambda new: _mandatory_result(src_attrs, new, dict(max_occurs=5))
+    elif op == 'mandatory_unicode':
+        src_attrs = _attrs(P['Unicode'])
+        out = c.run(Mandatory, P['Unicode'])
+        exp['result'] = lambda new: _mandatory_result(src_attrs, new, dict(min_len=1))
+    elif op == 'mandatory_integer':
+        src_attrs = _attrs(P['Integer'])
+        out = c.run(Mandatory, P['Integer'])
+        exp['result'] = lambda new: _mandatory_result(src_attrs, new, {})
+    elif op in ('pattern_removed', 'pattern_removed_then_derived'):
+        out = c.run(P['Pat'].customize, pattern=None)
+        if out.returned and op == 'pattern_removed_then_derived':
+            out = c.run(out.value.customize, max_len=7)
+
+        def result(new):
+            bad = []
+            if new.Attributes.pattern is not None:
+                bad.append(('pattern', new.Attributes.pattern))
+            for probe, want in (('ABC', True), ('abc', True), ('12 3', True)):
+                if bool(new.validate_string(new, probe) and new.validate_native(new, probe)) != want:
+                    bad.append(('verdict', probe, not want))
+            return bad
+        exp['result'] = result
+    elif op in ('declare_recursive_customized', 'declare_recursive_plain'):
+        member = SelfReference.customize(min_occurs=1, nullable=False) if op == 'declare_recursive_customized' else SelfReference
+        out = c.run(type(ComplexModel), 'Rec' + tag, (ComplexModel,), {'__namespace__': TNS, '_type_info': [
+            ('v', Integer), ('next', member), ('all', Array(SelfReference))]})
+
+        def result(new, customized=(op == 'declare_recursive_customized')):
+            nxt = new._type_info['next']
+            bad = []
+            if (nxt.__orig__ or nxt) is not new:
+                bad.append(('next is not the class itself', repr(nxt)))
+            want = (1, False) if customized else (0, True)
+            if (nxt.Attributes.min_occurs, bool(nxt.Attributes.nullable)) != want:
+                bad.append(('next', nxt.Attributes.min_occurs, nxt.Attributes.nullable, want))
+            (_, item), = new._type_info['all']._type_info.items()
+            if (item.__orig__ or item) is not new or item.Attributes.min_occurs != 0:
+                bad.append(('array item', repr(item), item.Attributes.min_occurs))
+            return bad
+        exp['result'] = result
+    elif op == 'prim_call':
         out = c.run(P['Integer'], lt=5, ge=-3)
     elif op == 'simple_customize':
         out = c.run(P['Int10'].customize, le=20, max_occurs=2)
@@ -251,8 +345,9 @@ def apply_op(c, op, pool, step):
     return out, exp
 
 
-def _mk_histories(length):
-    @obligation('C15.histories.len%d' % length, targets=['spyne.model.complex:ComplexModelBase.customize',
+def _mk_histories(length, first_op=None):
+    @obligation('C15.histories.len%d' % length + ('' if first_op is None else '.' + first_op), thorough_only=first_op is not None,
+                targets=['spyne.model.complex:ComplexModelBase.customize',
                                                           'spyne.model.complex:_process_child_attrs',
                                                           'spyne.model.complex:ComplexModelBase.append_field',
                                                           'spyne.model.complex:ComplexModelBase.insert_field',
@@ -266,9 +361,9 @@ def _mk_histories(length):
                      "position; derived classes see it before their own fields")
     def ob(c):
         pool = make_pool()
-        names = [k for k in pool if k not in ('Integer', 'Unicode')] + ['Integer', 'Unicode']
+        names = [k for k in pool if k not in ('Integer', 'Unicode') and not k.startswith('_')] + ['Integer', 'Unicode']
         for step in range(length):
-            op = c.choose(OPS, 'op%d' % step)
+            op = first_op if (step == 0 and first_op is not None) else c.choose(OPS, 'op%d' % step)
             before = {k: snapshot(pool[k]) for k in names}
             out, exp = apply_op(c, op, pool, step)
             c.check('op_returns[%d]' % step, out.returned, detail=(op, repr(out)))
@@ -305,6 +400,9 @@ def _mk_histories(length):
                     elif t is not None:
                         c.check('field_type_is_the_given_type', (getattr(t, '__orig__', None) or t) is ftype,
                                 detail=(k, name, repr(t)))
+            if exp.get('result') is not None and exp['new'] is not None:
+                bad = exp['result'](exp['new'])
+                c.check('new_type_carries_exactly_the_requested_constraints', not bad, detail=(op, step, bad[:4]))
             if exp['new'] is not None:
                 pool['new_%d' % step] = exp['new']
                 names.append('new_%d' % step)
@@ -333,6 +431,8 @@ def _diff(a, b):
 
 _mk_histories(1)
 _mk_histories(2)
+for _op in OPS:                    # thorough tier: every history of three operations, one obligation per first operation
+    _mk_histories(3, _op)
 
 
 # ------------------------------------------------------------------------------------------ explicit field positions
